@@ -197,12 +197,13 @@ Proof.
   apply decompress_layout_nocompute; assumption.
 Qed.
 
-(* round trip with compute fields: provided the compute stage regenerates the original values (C09) *)
-Theorem c01_roundtrip ct d pd r : pd_dir pd = d -> rule_ok_dec ct d pd r -> spec_rule_applies pd r = true ->
+(* round trip with compute fields: provided the compute stage, run in the order list.sort puts the
+   entries in, regenerates the original values (C09) *)
+Theorem c01_roundtrip_sort ct d pd r ces : pd_dir pd = d -> rule_ok_dec ct d pd r -> spec_rule_applies pd r = true ->
   let rfs := select_fds (Some d) (rule_fds r) in
   let ids := map r_id rfs in
-  ce_sorted (centries_of ct 0 rfs) = true ->
-  run_computes (centries_of ct 0 rfs) (combine ids (map2 pre_value rfs (pd_fields pd)) ++ [(payload_fid, pd_payload pd)])
+  py_sort_ces (centries_of ct 0 rfs) = Some ces ->
+  run_computes ces (combine ids (map2 pre_value rfs (pd_fields pd)) ++ [(payload_fid, pd_payload pd)])
     = Ok (combine ids (map f_val (pd_fields pd)) ++ [(payload_fid, pd_payload pd)]) ->
   exists s, compress pd r (Some d) = Ok s /\
             decompress ct s r (Some d) = Ok (concat (map f_val (pd_fields pd)) ++ pd_payload pd).
@@ -212,9 +213,26 @@ Proof.
   destruct Hok as [Hok HT].
   destruct (rule_ok_fields ct d pd r Hd Hok HA) as (_ & _ & _ & _ & F4 & _).
   eexists. split; [exact C|].
-  rewrite (decompress_layout ct r (Some d) _ rs (pd_payload pd) F3 F5 F2 HSo).
+  rewrite (decompress_layout_sort ct r (Some d) _ rs (pd_payload pd) ces F3 F5 F2 HSo).
   cbv zeta. unfold bits in *. rewrite HRun. cbn [bind]. f_equal.
   apply concat_fields. rewrite !map_length. symmetry. exact F4.
+Qed.
+
+(* the entries already in the order of the comparison (rule in packet order, no dependency on a later
+   field).  ADDED premise: fewer than 64 compute entries (the model of list.sort covers no more; it
+   follows from length rfs < 64 by SchcCodec.centries_length_le) *)
+Theorem c01_roundtrip ct d pd r : pd_dir pd = d -> rule_ok_dec ct d pd r -> spec_rule_applies pd r = true ->
+  let rfs := select_fds (Some d) (rule_fds r) in
+  let ids := map r_id rfs in
+  ce_sorted (centries_of ct 0 rfs) = true ->
+  (length (centries_of ct 0 rfs) < 64)%nat ->
+  run_computes (centries_of ct 0 rfs) (combine ids (map2 pre_value rfs (pd_fields pd)) ++ [(payload_fid, pd_payload pd)])
+    = Ok (combine ids (map f_val (pd_fields pd)) ++ [(payload_fid, pd_payload pd)]) ->
+  exists s, compress pd r (Some d) = Ok s /\
+            decompress ct s r (Some d) = Ok (concat (map f_val (pd_fields pd)) ++ pd_payload pd).
+Proof.
+  intros Hd Hok HA rfs ids HSo Hn HRun.
+  exact (c01_roundtrip_sort ct d pd r _ Hd Hok HA (py_sort_sorted _ HSo Hn) HRun).
 Qed.
 
 (* no-compression rule *)
@@ -319,14 +337,33 @@ Theorem c01_manager_rules ct parse rules packet d st fs pl :
      (rule_nature r = NoCompression /\ rule_fds r = []) \/
      (rule_ok_dec ct d (mkpdesc d fs pl) r /\
       let rfs := select_fds (Some d) (rule_fds r) in
-      ce_sorted (centries_of ct 0 rfs) = true /\
+      ce_sorted (centries_of ct 0 rfs) = true /\ (length (centries_of ct 0 rfs) < 64)%nat /\
       run_computes (centries_of ct 0 rfs) (combine (map r_id rfs) (map2 pre_value rfs fs) ++ [(payload_fid, pl)])
         = Ok (combine (map r_id rfs) (map f_val fs) ++ [(payload_fid, pl)]))) ->
   forall s, cm_compress parse rules packet d st = Ok s -> cm_decompress ct rules s (Some d) = Ok packet.
 Proof.
   intros HP HT PF T All. apply (c01_manager_gen ct parse rules packet d st fs pl HP PF T).
-  intros r I A. rewrite <- HT. destruct (All r I A) as [[HN HF]|[Hok [HSo HRun]]].
+  intros r I A. rewrite <- HT. destruct (All r I A) as [[HN HF]|[Hok [HSo [Hn HRun]]]].
   - apply (c01_roundtrip_nocompression ct d (mkpdesc d fs pl) r HN HF).
-  - apply (c01_roundtrip ct d (mkpdesc d fs pl) r eq_refl Hok A HSo HRun).
+  - apply (c01_roundtrip ct d (mkpdesc d fs pl) r eq_refl Hok A HSo Hn HRun).
+Qed.
+
+(* the same with the entries in the order list.sort puts them in *)
+Theorem c01_manager_rules_sort ct parse rules packet d st fs pl :
+  parse packet = Ok (fs, pl) -> concat (map f_val fs) ++ pl = packet ->
+  prefix_free rules -> forallb rule_typed rules = true ->
+  (forall r, In r rules -> spec_rule_applies (mkpdesc d fs pl) r = true ->
+     (rule_nature r = NoCompression /\ rule_fds r = []) \/
+     (rule_ok_dec ct d (mkpdesc d fs pl) r /\
+      let rfs := select_fds (Some d) (rule_fds r) in
+      exists ces, py_sort_ces (centries_of ct 0 rfs) = Some ces /\
+      run_computes ces (combine (map r_id rfs) (map2 pre_value rfs fs) ++ [(payload_fid, pl)])
+        = Ok (combine (map r_id rfs) (map f_val fs) ++ [(payload_fid, pl)]))) ->
+  forall s, cm_compress parse rules packet d st = Ok s -> cm_decompress ct rules s (Some d) = Ok packet.
+Proof.
+  intros HP HT PF T All. apply (c01_manager_gen ct parse rules packet d st fs pl HP PF T).
+  intros r I A. rewrite <- HT. destruct (All r I A) as [[HN HF]|[Hok (ces & HSo & HRun)]].
+  - apply (c01_roundtrip_nocompression ct d (mkpdesc d fs pl) r HN HF).
+  - apply (c01_roundtrip_sort ct d (mkpdesc d fs pl) r ces eq_refl Hok A HSo HRun).
 Qed.
 
